@@ -22,6 +22,13 @@ Definition model_agree08 (c : c08case) : N :=
 (* C08 as stated, on the observation *)
 Definition spec_holds08 (c : c08case) : N :=
   if negb (b_system_ok c) then 33%N
+  else if b_user c && b_w c then
+    (* the registered callback is the harness' own and it always fails: the answer is the stream's abort (or S9F5 where no abort function exists) *)
+    match b_replies c with
+    | [RAbort s'] => if s' =? b_s c then 0%N else 35%N
+    | [RS9F5] => if has_abort (b_s c) then 35%N else (if b_header_ok c then 0%N else 34%N)
+    | _ => 35%N
+    end
   else if b_w c then (if answered_once (b_s c) (b_f c) (b_replies c) then (if b_header_ok c then 0%N else 34%N) else 31%N)
   else match b_replies c with
        | [] => 0%N
